@@ -6,7 +6,7 @@ from .c12 import is_decoder
 
 TS = "s3s::dto::timestamp::"
 RG = "s3s::dto::range::"
-ENCODERS = ("urlencoding::encode", "percent_encoding::utf8_percent_encode", "percent_encoding::percent_encode")
+ENCODERS = ("urlencoding::encode", "urlencoding::enc::encode", "percent_encoding::utf8_percent_encode", "percent_encoding::percent_encode")
 
 UTC_SOURCES = ("assume_utc", "from_unix_timestamp", "from_unix_timestamp_nanos", "now_utc")
 ANY_SOURCES = ("OffsetDateTime::parse", "assume_offset", "now_local")
@@ -227,25 +227,58 @@ def rule_r2(chk, db):
     f = inline.inlined(db, db.body("s3s::dto::copy_source::CopySource::format_to_string"))
     if p is None or f is None:
         raise AnchorMissing("CopySource::parse / format_to_string not found")
-    decs = [(bi, t) for bi, t in p.calls() if is_decoder(callee_def(t))]
+    decs = [(bi, t) for x in db.nested(p) for bi, t in x.calls() if is_decoder(callee_def(t))]
     encs = [(b2, bi, t) for b2 in db.nested(f) for bi, t in b2.calls() if any(callee_def(t).startswith(e) for e in ENCODERS) or short(callee_def(t)) in ("uri_encode", "uri_encode_string")]
     if not decs:
         chk.ok("R2", "no-decoding", p.loc(), nontrivial=False)
         return
+    # where decoding is applied in parse itself: a direct decoder call, or a call of / a map over a local closure that decodes
+    dclos = {x.name for x in db.nested(p, include_self=False) if any(is_decoder(callee_def(t)) for _, t in x.calls())}
+
+    def applies_decoder(t):
+        if is_decoder(callee_def(t)):
+            return True
+        for a in t["args"]:
+            for l, _ in (flow.resolve_chain(p, a) or []):
+                for df in p.defs().get(l, []):
+                    if df["kind"] == "assign" and df["rv"]["k"] == "agg" and df["rv"].get("agg") == "closure" and df["rv"].get("def") in dclos:
+                        return True
+        return False
     # (a) the `?versionId=` separator is split off before decoding (else an encoded `?` inside the key cuts the key)
     splits_q = []
     for bi, t in p.calls():
-        if short(callee_def(t)) in ("split_once", "rsplit_once", "split", "find"):
+        if short(callee_def(t)) in ("split_once", "rsplit_once", "split", "find", "splitn"):
             c = [flow.const_of(p, a) for a in t["args"]]
             if any(x is not None and x.get("c") == "int" and x.get("ty") == "char" and int(x["v"]) == 0x3F for x in c):
                 splits_q.append(bi)
     pre = False
     for sb in splits_q:
         sl = flow.backward(p, p.blocks[sb]["term"]["args"][0], at=sb)
-        if not any(is_decoder(callee_def(t)) for _, t, _ in sl.calls):
+        if not any(applies_decoder(t) for _, t, _ in sl.calls):
             pre = True
-    chk.verdict(pre or not splits_q, "R2", "split-before-decode", p.loc(decs[0][0]),
-                "the header is percent-decoded as a whole and only then split at `?`: an encoded `%3F` inside the key is taken for the versionId separator (`bucket/a%3Fb` parses to key `a`)")
+    chk.verdict(pre, "R2", "split-before-decode", p.loc(decs[0][0]) if False else p.loc(),
+                "the header is not split at the literal `?` before percent-decoding: an encoded `%3F` inside the key is taken for the versionId separator "
+                "(`bucket/a%3Fb` parses to key `a`)")
+    # every part handed on is decoded exactly once: bucket/key and version id each derive from one decode application
+    n_app = len([1 for _, t in p.calls() if applies_decoder(t)])
+    chk.floor("R2.decode", n_app, 2, "decode applications in CopySource::parse (path, version id)")
+    # (a') separators are located from the front: keys contain `/`, version ids contain `=` (base64 padding), so a search from the end
+    #      cuts the value at the wrong place (`?versionId=Zm9v==` would lose its version)
+    FROM_END = ("rsplit_once", "rsplit", "rsplitn", "rfind", "rsplit_terminator", "rmatch_indices", "rmatches", "rsplit_once")
+    late = []
+    n_front = 0
+    for x in db.nested(p):
+        for bi, t in x.calls():
+            d = callee_def(t)
+            if d.startswith("core::str::<impl str>::"):
+                if short(d) in FROM_END:
+                    late.append((x, bi, short(d)))
+                elif short(d) in ("split_once", "find", "strip_prefix", "split_at", "splitn"):
+                    n_front += 1
+    chk.verdict(not late, "R2", "separators-from-the-front", late[0][0].loc(late[0][1]) if late else p.loc(),
+                "CopySource::parse locates a separator with %s (last occurrence): `/` occurs inside keys and `=` inside version ids, so `bucket/key?versionId=Zm9vYg==` "
+                "would lose or truncate its version / key" % (late[0][2] if late else ""))
+    chk.floor("R2.sep", n_front, 2, "front-anchored separator searches in CopySource::parse")
     # (b) what parse decodes, format must encode
     chk.verdict(bool(encs), "R2", "format-encodes", f.loc(),
                 "CopySource::parse percent-decodes the header but format_to_string writes bucket/key/versionId without percent-encoding: a key such as `a%20b` or `a?b` does not survive format -> parse")
